@@ -112,6 +112,25 @@ def run(ctx):
         ctx.lost('C06.R1', 'next/phase_inh/phase_one/phase_two calls (exactly one each) in infeasible_elimination')
         return
     node = R.call_args(ph2[0])[1]
+    # ---- R1 (every node is looked at): the traversal loop is left only when the generator is exhausted -- a `break` / early `return` in the
+    # loop body leaves the rest of the tree unclassified
+    hdrs = [h for h in cfg.loop_headers() if isinstance(h, int) and nxt[0] in cfg.loop_of(h)]
+    if hdrs:
+        h = max(hdrs, key=lambda x: len(cfg.loop_of(x)))
+        exits = cfg.loop_exits(h)
+        def exhausted(e):
+            # the exit edge is the `None` arm of the switch on next()'s result
+            src = e[0]
+            tgt = e[1]
+            lits_ = literals(b, R, tgt) if isinstance(tgt, int) else []
+            return any(l[0] == 'is' and len(l) > 2 and set(l[2]) == {'None'} and is_call(l[1], 'PolyhedraGen::next') for l in lits_)
+        good = len(exits) >= 1 and (len(exits) == 1 and exhausted(exits[0]) or all(exhausted(e) for e in exits))
+        if good:
+            ctx.ok('C06.R1', Q + '#whole-tree', 'the traversal loop ends only when the generator is exhausted: every node is classified or skipped as part of an infeasible subtree', b.where(nxt[0]))
+        else:
+            ctx.bad('C06.R1', Q + '#whole-tree', 'the traversal loop can be left before the generator is exhausted (%d exits): nodes after that point are never classified' % len(exits), b.where(nxt[0]))
+    else:
+        ctx.undecided('C06.R1', Q + '#whole-tree', 'traversal loop around PolyhedraGen::next not found', b.span)
     # ---- R1a: phase order
     l1 = literals(b, R, ph1[0])
     l2 = literals(b, R, ph2[0])
